@@ -1728,7 +1728,8 @@ def run_pair(program, res, pid="C15"):
 
 
 # ------------------------------------------------------------------------------- (c) histories
-HISTORY_TARGETS = ["pool", "parameter", "form", "validator", "inputvalidation", "inputfile", "uijson"]
+HISTORY_TARGETS = ["pool", "parameter", "form", "validator", "inputvalidation", "inputfile", "uijson",
+                   "uijson_pairs"]
 
 # value pools: (label, value) — JSON-able so that calls can be stored in programs
 POOL_VALUES = [("a", "a"), ("b", "b"), ("c", "c"), ("int5", 5), ("float", 1.5), ("none", None), ("true", True),
@@ -1836,7 +1837,8 @@ def run_history(program, res, pid="C15"):
     target = program["target"]
     res.label("history:" + target)
     runner = {"pool": hist_pool, "parameter": hist_parameter, "form": hist_form, "validator": hist_validator,
-              "inputvalidation": hist_inputvalidation, "inputfile": hist_inputfile, "uijson": hist_uijson}[target]
+              "inputvalidation": hist_inputvalidation, "inputfile": hist_inputfile, "uijson": hist_uijson,
+              "uijson_pairs": hist_uijson_pairs}[target]
     state = HistoryState()
     runner(program, res, pid, state)
     res.count("history_calls", state.calls)
@@ -2454,3 +2456,112 @@ def hist_uijson(program, res, pid, state):
                     break
     finally:
         env.close_quietly(ws)
+
+
+# ---- UIJson with several object / data selectors: cross-parameter rules
+def hist_uijson_pairs(program, res, pid, state):
+    """One UIJson holding two object selectors and three data selectors (two on the first object, one on the
+    second). Calls re-assign selectors (own object / the other object / an object of another file; a child of the
+    declared parent / of the other object / of the foreign object) and validate. By construction the whole is valid
+    iff every object lies in the file of the ui.json and every channel is a child of the object its `parent` names,
+    whatever the position of the offending parameter."""
+    import itertools
+
+    from geoh5py.objects import Points
+    from geoh5py.ui_json import forms as F
+    from geoh5py.ui_json import parameters as P
+    from geoh5py.ui_json.ui_json import UIJson
+    from geoh5py.workspace import Workspace
+
+    ws = ws2 = None
+    try:
+        ws = Workspace.create(env.new_path("uj"))
+        ws2 = Workspace.create(env.new_path("uj_other"))
+        verts = np.array([[float(i), 0.0, 0.0] for i in range(3)])
+        objs, kids = {}, {}
+        for name, where in (("survey", ws), ("mesh", ws), ("stranger", ws2)):
+            objs[name] = Points.create(where, name=name, vertices=verts)
+            kids[name] = [objs[name].add_data({f"{name}_{i}": {"values": np.arange(3.0) + i}}) for i in range(2)]
+        ws.close()
+        ws2.close()
+        variant = program.get("variant", 0)
+        selectors = ["survey", "mesh", "x_channel", "y_channel", "z_channel"]
+        order = list(list(itertools.permutations(range(5)))[(variant * 7) % 120])
+        parent_of = {"x_channel": "survey", "y_channel": "survey", "z_channel": "mesh"}
+        points_type = str(Points.default_type_uid())
+
+        def parameters(values):
+            out = {
+                "title": P.StringParameter("title", value="my application"),
+                "geoh5": P.WorkspaceParameter("geoh5", value=ws),
+                "run_command": P.StringParameter("run_command"),
+                "run_command_boolean": F.BoolFormParameter("run_command_boolean", label="Run", value=False),
+                "monitoring_directory": P.StringParameter("monitoring_directory"),
+                "conda_environment": P.StringParameter("conda_environment"),
+                "conda_environment_boolean": P.BoolParameter("conda_environment_boolean"),
+                "workspace": P.WorkspaceParameter("workspace"),
+            }
+            for idx in order:
+                name = selectors[idx]
+                if name in parent_of:
+                    out[name] = F.DataFormParameter(name, label=name, parent=parent_of[name], association="Vertex",
+                                                    data_type="Float", value=values[name])
+                else:
+                    out[name] = F.ObjectFormParameter(name, label=name, mesh_type=[points_type], value=values[name])
+            return out
+
+        current = {"survey": objs["survey"], "mesh": objs["mesh"], "x_channel": kids["survey"][0],
+                   "y_channel": kids["survey"][1], "z_channel": kids["mesh"][0]}
+        used = UIJson(parameters(current))
+
+        def expected(values):
+            for name in ("survey", "mesh"):
+                if values[name].workspace is not ws:
+                    return "reject"
+            for name, par in parent_of.items():
+                if values[name].parent is not values[par]:
+                    return "reject"
+            return "accept"
+
+        def choice(name, k, v):
+            if name in parent_of:
+                owner = [current[parent_of[name]].name, "survey", "mesh", "stranger"][k % 4]
+                if owner not in kids:
+                    owner = "stranger"
+                return kids[owner][v % 2]
+            return objs[["survey", "mesh", name, "stranger"][k % 4]]
+
+        for call in program["calls"]:
+            op = call["op"] % 4
+            if op in (1, 2, 3):
+                names = [selectors[call["k"] % 5]]
+                if op == 3:
+                    names.append(selectors[(call["k"] + 1 + call["v"]) % 5])
+                update = {name: choice(name, call["v"] + i, call["k"] + i) for i, name in enumerate(dict.fromkeys(names))}
+                got = verdict_of(lambda: used.update(update))
+                if got[0] != "accept":
+                    res.fail(f"{pid}/history/update-refused/uijson_pairs/{got[0]}:{got[1]}",
+                             f"UIJson.update({sorted(update)}) with entities of the declared kind -> {got}")
+                    break
+                current.update(update)
+                res.label("uijson_pairs:" + ("two-updated" if len(update) > 1 else "one-updated"))
+                continue
+            expect = expected(current)
+            bad = [n for n in selectors if (n in parent_of and current[n].parent is not current[parent_of[n]])
+                   or (n not in parent_of and current[n].workspace is not ws)]
+            position = "-"
+            if bad:
+                placed = [selectors[i] for i in order]
+                position = "last" if max(placed.index(n) for n in bad) == 4 else "not-last"
+                res.label("uijson_pairs:invalid-" + position)
+            got = verdict_of(used.validate)
+            fresh = verdict_of(UIJson(parameters(current)).validate)
+            state.note(fresh[0])
+            if fresh[0] != expect:
+                res.fail(f"{pid}/history/fresh-verdict-wrong/uijson_pairs/validate/{expect}-expected/{position}",
+                         f"fresh UIJson.validate() -> {fresh}; parameters in order {[selectors[i] for i in order]}, "
+                         f"offending {bad}")
+            if not compare_call(res, pid, "uijson_pairs", "validate", (got[0], ""), (fresh[0], ""), f"offending={bad}"):
+                break
+    finally:
+        env.close_quietly(ws, ws2)
